@@ -385,6 +385,46 @@ def gen_bytes(rng, cands):
     return bytes(data)
 
 
+class Blocked(Exception):
+    pass
+
+
+def run_watched(cmd, input_bytes, env2, idle_limit=20.0, wall_limit=180.0):
+    """subprocess.run with two ways out besides the normal one: the process sits IDLE (no CPU time used, blocked) for
+    idle_limit seconds in a row -> Blocked; wall_limit passes -> subprocess.TimeoutExpired (decided on CPU use by the caller)"""
+    import tempfile
+    import time
+    from ..runner import proc_cpu_s
+    with tempfile.TemporaryFile() as fo, tempfile.TemporaryFile() as fe:
+        p = subprocess.Popen(cmd, stdin=subprocess.PIPE, stdout=fo, stderr=fe, env=env2)
+        try:
+            p.stdin.write(input_bytes)
+            p.stdin.close()
+        except (BrokenPipeError, OSError):
+            pass
+        t0 = time.time()
+        cpu0 = proc_cpu_s(p.pid)
+        idle_since = time.time()
+        while p.poll() is None:
+            time.sleep(0.05 if time.time() - t0 < 2 else 0.5)
+            cpu = proc_cpu_s(p.pid)
+            if cpu is not None and cpu0 is not None and cpu - cpu0 < 0.02:
+                if time.time() - idle_since > idle_limit:
+                    p.kill()
+                    p.wait()
+                    raise Blocked('idle for %.0f s (%.2f s of CPU used in all)' % (idle_limit, cpu))
+            else:
+                idle_since = time.time()
+                cpu0 = cpu
+            if time.time() - t0 > wall_limit:
+                p.kill()
+                p.wait()
+                raise subprocess.TimeoutExpired(cmd, wall_limit)
+        fo.seek(0)
+        fe.seek(0)
+        return subprocess.CompletedProcess(cmd, p.returncode, fo.read(), fe.read())
+
+
 def run_process(ctx, spec):
     env.setup()
     cands = wlxml.shipped(env.REPO)
@@ -434,7 +474,7 @@ def run_process(ctx, spec):
                     th = threading.Thread(target=feed, daemon=True)
                     th.start()
                     try:
-                        r = subprocess.run(main + ['-l', fn], input=b'quit\n', stdout=subprocess.PIPE, stderr=subprocess.PIPE, timeout=180, env=e2)
+                        r = run_watched(main + ['-l', fn], b'quit\n', e2)
                     finally:
                         # if the tool never opened the pipe the writer is still blocked in open(): release it
                         try:
@@ -457,6 +497,11 @@ def run_process(ctx, spec):
                     json.dump({'report': os.path.join(d, 'rep.json'), 'stderr_chunks': [[data.hex(), 0]], 'exit': want_rc}, open(planf, 'w'))
                     e2['VERIF_CHILD_PLAN'] = planf
                     r = subprocess.run(main + ['-r', '/venv/bin/python', os.path.join(helpers, 'child.py')], input=b'quit\n', stdout=subprocess.PIPE, stderr=subprocess.PIPE, timeout=180, env=e2)
+            except Blocked as e:
+                ctx.violation('process-blocked', '%s under %s on %d bytes%s: the tool neither finished nor computed - %s' % (
+                    mode, loc, len(data), ' arriving through a named pipe' if fn.endswith('.fifo') else '', e),
+                    {'bytes_hex': data.hex() if len(data) < 200000 else data[:200000].hex(), 'mode': mode, 'locale': loc, 'want_rc': want_rc, 'fifo': True})
+                continue
             except subprocess.TimeoutExpired:
                 # wall-clock alone decides nothing (a loaded machine); a child that BURNT more than a minute of CPU on a few
                 # kilobytes of input was not starved, it does not get through them
